@@ -15,6 +15,7 @@ import (
 	"errors"
 	"io"
 	"strings"
+	"unicode/utf8"
 
 	"github.com/hattya/go.sh/ast"
 	"github.com/hattya/go.sh/interp"
@@ -789,7 +790,7 @@ func assign(w ast.Word) *ast.Assign {
 	n := w[0].(*ast.Lit)
 	if i := strings.IndexRune(n.Value, '='); 0 < i && i < len(n.Value)-1 {
 		w[0] = &ast.Lit{
-			ValuePos: ast.NewPos(n.ValuePos.Line(), n.ValuePos.Col()+i+1),
+			ValuePos: ast.NewPos(n.ValuePos.Line(), n.ValuePos.Col()+utf8.RuneCountInString(n.Value[:i])+1),
 			Value:    n.Value[i+1:],
 		}
 		n.Value = n.Value[:i]
